@@ -627,6 +627,11 @@ func (e *Eval) assumeConstGlobals(pkg *ssa.Package, st *State) {
 		if cg.Pkg != pkg.Pkg.Name() {
 			continue
 		}
+		if strings.HasPrefix(cg.Value, "func:") {
+			e.c.constComps["G."+cg.Pkg+"."+cg.Name] = true
+			e.usedConstGlobals = true
+			continue // function-valued: resolved where the variable is loaded
+		}
 		env := e.newEnv(pkg, st, st)
 		txt := cg.Name + " == " + cg.Value
 		if cg.Value == "nonnil" {
@@ -685,6 +690,11 @@ func ConstGlobalResult(p *Program, cg *ConstGlobal) *FuncResult {
 								}
 								if !okInit {
 									ok, why = false, "initialiser is not errors.New/fmt.Errorf"
+								}
+							} else if x.Addr == g && fn.Name() == "init" && fn.Synthetic != "" && strings.HasPrefix(cg.Value, "func:") {
+								stores++
+								if f, isFn := x.Val.(*ssa.Function); !isFn || f.Name() != strings.TrimPrefix(cg.Value, "func:") {
+									ok, why = false, "initialiser is not the function "+strings.TrimPrefix(cg.Value, "func:")
 								}
 							} else if x.Addr == g && fn.Name() == "init" && fn.Synthetic != "" {
 								stores++
